@@ -1,5 +1,6 @@
 import TantivyModel.Proofs.Merge
 import TantivyModel.Proofs.MergeSteps3
+import TantivyModel.Proofs.MergeWF
 import TantivyModel.Proofs.MergeMulti5
 /-!
 # C04 — Merging never changes the logical content of the index
@@ -85,6 +86,31 @@ theorem C04_merge_translation {α} (segs : List (Segment α))
       simp only at hd ht
       rw [hd, ht]
 
+/-- CLOSURE UNDER RE-MERGING. The merged segment is again a well-formed merge source: per-doc
+data and alive bitset have equal length, and every posting list of its dictionary is strictly
+increasing in doc id with all ids below `max_doc` (so block encoding and skip lists see what they
+expect). Hence the hypotheses of `C04_merge_translation` hold for merged segments, and the
+translation theorem applies to merges of merged segments, to any depth. -/
+theorem C04_merged_wellformed {α} (segs : List (Segment α))
+    (hlen : ∀ s ∈ segs, s.docs.length = s.alive.length)
+    (hpost : ∀ s ∈ segs, ∀ t ∈ s.terms, postingsOk s.alive.length t.2 = true) :
+    (mergeModel segs).docs.length = (mergeModel segs).alive.length ∧
+    ∀ t ∈ (mergeModel segs).terms, postingsOk (mergeModel segs).alive.length t.2 = true :=
+  mergeModel_wf segs hlen hpost
+
+/-- merges of merged segments: every group is merged, then the results are merged again -/
+theorem C04_merge_translation_iterated {α} (groups : List (List (Segment α)))
+    (hlen : ∀ g ∈ groups, ∀ s ∈ g, s.docs.length = s.alive.length)
+    (hpost : ∀ g ∈ groups, ∀ s ∈ g, ∀ t ∈ s.terms, postingsOk s.alive.length t.2 = true) :
+    dump (mergeModel (groups.map mergeModel)) = mergeSpec (groups.map mergeModel) := by
+  apply C04_merge_translation
+  · intro s hs
+    obtain ⟨g, hg, rfl⟩ := List.mem_map.1 hs
+    exact (mergeModel_wf g (hlen g hg) (hpost g hg)).1
+  · intro s hs
+    obtain ⟨g, hg, rfl⟩ := List.mem_map.1 hs
+    exact (mergeModel_wf g (hlen g hg) (hpost g hg)).2
+
 /-- Translation of postings, per source (the step `write_postings_for_field` performs for each
 `(term, source)` pair): the posting list of source `s` remapped through the filled old→new table
 is exactly the list of its LIVE postings — tf and positions copied unchanged, doc ids
@@ -164,6 +190,11 @@ example : (dump (mergeModel exSegs)).docs = [7, 9, 4, 5] := by decide
 example : ∀ s ∈ exSegs, s.docs.length = s.alive.length := by decide
 example : ∀ s ∈ exSegs, ∀ t ∈ s.terms, postingsOk s.alive.length t.2 = true := by decide
 example : mergedTermFrom (oldToNew exSegs) [98] 0 exSegs = (1, [⟨1, 1, [5]⟩]) := by decide
+example : (mergeModel exSegs).docs.length = (mergeModel exSegs).alive.length ∧
+    ∀ t ∈ (mergeModel exSegs).terms, postingsOk (mergeModel exSegs).alive.length t.2 = true :=
+  C04_merged_wellformed exSegs (by decide) (by decide)
+example : dump (mergeModel ([exSegs, exSegs.take 1].map mergeModel)) = mergeSpec ([exSegs, exSegs.take 1].map mergeModel) :=
+  C04_merge_translation_iterated [exSegs, exSegs.take 1] (by decide) (by decide)
 example : dump (mergeModel exSegs) = mergeSpec exSegs :=
   C04_merge_translation exSegs (by decide) (by decide)
 example : mergedStore (fun i => i == 2) 0 exSegs = [7, 9, 4, 5] := by decide
